@@ -357,7 +357,8 @@ class Ranges(Sub):
     name = 'c10.ranges'
     rule = ('A:B range references over a grid of corner pairs, written in all four corner orders, 16 absolute-marker '
             'patterns and 2 cases: one range event whose start is (min row, min col) and end (max row, max col), each '
-            'corner cell\'s label spelling its own coordinates and flags; non-trivial = corners written in non-canonical '
+            'corner cell\'s label spelling its own coordinates and flags, and the two cells of a one-row / one-column range '
+            'being the written corners with their own markers; non-trivial = corners written in non-canonical '
             'order')
     min_cases = 100
     min_nontrivial = 100
@@ -413,6 +414,17 @@ class Ranges(Sub):
                     if label != want_with_flags:
                         return fail('%r: %s cell label %r disagrees with its absolute flags (col %s, row %s)' % (
                             text, nm, label, cabs, rabs), want_with_flags, label)
+                # a one-row or one-column range has its two written corners AS its top-left and bottom-right cells: the
+                # event carries those two cells, markers and all, whichever was written first ("however the corners were
+                # written": A2:$A1 and $A1:A2 are one range)
+                if (rowa == rowb) != (cia == cib):
+                    written = sorted([[rowa - 1, cia, bool(pat & 2), bool(pat & 1)],
+                                      [rowb - 1, cib, bool((pat >> 2) & 2), bool((pat >> 2) & 1)]])
+                    delivered = [list(s[1:5]), list(e[1:5])]
+                    if delivered != written:
+                        return fail('%r: the range event carries the cells (row, col, row absolute, col absolute) %r; the '
+                                    'top-left and bottom-right cells of this range are the written corners %r' % (
+                                        text, delivered, written), written, delivered)
                 # flags must be those written for that row / column
                 flags = {}
                 flags[('r', rowa - 1)] = bool(pat & 2)
